@@ -4,6 +4,7 @@ package cmd
 
 import (
 	"strings"
+	"time"
 
 	"github.com/AdguardTeam/AdGuardDNS/internal/agdcache"
 	"github.com/AdguardTeam/AdGuardDNS/internal/dnsmsg"
@@ -89,7 +90,7 @@ func VerifC20DNS() {
 	}
 	verifReach("accepted")
 	verifAssert("accepted-read-timeout-positive", c.ReadTimeout.Duration > 0)
-	verifAssert("accepted-tcp-idle-timeout-in-range", c.TCPIdleTimeout.Duration > 0 && c.TCPIdleTimeout.Duration <= 1<<16*1e9)
+	verifAssert("accepted-tcp-idle-timeout-in-range", c.TCPIdleTimeout.Duration > 0 && c.TCPIdleTimeout.Duration <= 65535*100*time.Millisecond)
 	verifAssert("accepted-write-timeout-positive", c.WriteTimeout.Duration > 0)
 	verifAssert("accepted-handle-timeout-positive", c.HandleTimeout.Duration > 0)
 	verifAssert("accepted-udp-size-in-range", c.MaxUDPResponseSize > 0 && c.MaxUDPResponseSize <= 65535)
